@@ -6,9 +6,11 @@ mod c08;
 mod c09;
 mod c10;
 mod c11;
+mod c12;
 mod c13;
 mod compose;
 mod lifecycle;
+mod limits;
 
 fn main() {
     vmon::run_main(&[
@@ -23,7 +25,10 @@ fn main() {
         ("C09", c09::run),
         ("C10", c10::run),
         ("C11", c11::run),
+        ("C12", c12::run),
         ("C13", c13::run),
+        ("C52", limits::run_c52),
+        ("C53", limits::run_c53),
         ("C58", compose::run_c58),
     ]);
 }
